@@ -685,7 +685,7 @@ func TestReadData(t *testing.T) {
 // small alphabet, chunk size 1 and unchunked, both sides, main entry points.
 
 func TestSmallScopeExhaustive(t *testing.T) {
-	depth := hx.Pick(3, 4)
+	depth := hx.Pick(3, 5)
 	var n int64
 	idx := 0
 	failed := false
